@@ -3,7 +3,7 @@
 // sim::ReferenceSimulator under random and adversarial push/pop schedules and prints, for every rising
 // clock edge event, the inputs that were applied and the interface values sampled just before the edge.
 //
-// Usage: c15 <seed> <ncases> <eventsPerCase> [stream|deep|gray]
+// Usage: c15 <seed> <ncases> <eventsPerCase> [stream|deep|gray|array]      (array = scl::FifoArray, see runArrayCase)
 //   stream = drive scl::strm::fifo instead (see runStreamCase); deep = dual-clock FIFOs of depth 128/256/512 only;
 //   gray = tie scl::grayEncode/grayDecode at widths 1..16 (see runGrayCase; <eventsPerCase> = random samples per width > 12)
 //
@@ -18,6 +18,7 @@
 #include <gatery/pch.h>
 #include <gatery/frontend.h>
 #include <gatery/scl/Fifo.h>
+#include <gatery/scl/FifoArray.h>
 #include <gatery/scl/stream/Stream.h>
 #include <gatery/scl/stream/streamFifo.h>
 #include <gatery/simulation/SimulatorCallbacks.h>
@@ -420,12 +421,106 @@ static void runGrayCase(uint64_t id, Rng rng, size_t nSamples, std::ostream &o) 
 	o << "end\n";
 }
 
+// ---- FifoArray (scl/FifoArray.h) ---------------------------------------------------------------------
+// 2^kf FIFOs of 2^k elements behind one push port + selector and one pop port + selector, single clock.
+//   case <id> mode=array kf=<log2 #fifos> k=<log2 depth> w=<bits>
+//   a <rst> <push> <pushSel> <data> <pop> <popSel> | <full> <empty> <size> <peek>
+// Schedules: selectors differ and change every cycle, stay fixed on different FIFOs, chase the fullest / emptiest FIFO.
+static void runArrayCase(uint64_t id, Rng rng, size_t nEvents, std::ostream &o) {
+	size_t kf = rng.range(1, 3), k = rng.range(1, 4);
+	// 8 x 16 = 128 words exceeds the default SMALL (asynchronous read) memory class: the combinational peek() then needs a
+	// user-supplied retimable register (as in tests/scl/fifo_test.cpp FifoArray_poc), otherwise postprocess() fails with a
+	// retiming DesignError. The harness observes peek() combinationally, so that one configuration is left out.
+	if (kf == 3 && k == 4) k = rng.range(1, 3);
+	size_t nF = size_t(1) << kf, N = size_t(1) << k;
+	static const std::vector<size_t> widths = {4, 8, 8, 13, 16};
+	size_t w = rng.pick(widths);
+	DesignScope design;
+	Clock clock({ .absoluteFrequency = hlim::ClockRational(1'000'000, 1), .name = "clk" });
+	ClockScope cs(clock);
+	hlim::Node_Pin *pPush, *pPushSel, *pData, *pPop, *pPopSel, *oFull, *oEmpty, *oSize, *oPeek;
+	o << "case " << id << " mode=array kf=" << kf << " k=" << k << " w=" << w << "\n";
+	{
+		scl::FifoArray<UInt> fifo(nF, N, UInt{ BitWidth(w) });
+		auto ipPush = pinIn().setName("push"); pPush = ipPush.node(); Bit push = ipPush;
+		auto ipPushSel = pinIn(BitWidth(kf)).setName("push_sel"); pPushSel = ipPushSel.node(); UInt pushSel = ipPushSel;
+		auto ipData = pinIn(BitWidth(w)).setName("push_data"); pData = ipData.node(); UInt data = ipData;
+		fifo.selectPush(pushSel);
+		IF(push) fifo.push(data);
+		auto ipPop = pinIn().setName("pop"); pPop = ipPop.node(); Bit pop = ipPop;
+		auto ipPopSel = pinIn(BitWidth(kf)).setName("pop_sel"); pPopSel = ipPopSel.node(); UInt popSel = ipPopSel;
+		fifo.selectPop(popSel);
+		IF(pop) fifo.pop();
+		fifo.generate();
+		oFull = pinOut(fifo.full()).setName("full").node();
+		oEmpty = pinOut(fifo.empty()).setName("empty").node();
+		oSize = pinOut(fifo.size()).setName("size").node();
+		oPeek = pinOut(fifo.peek()).setName("peek").node();
+		design.postprocess();
+	}
+
+	ClockSpy spy;
+	spy.pushClk = spy.popClk = clock.getClk()->getClockPinSource();
+	sim::ReferenceSimulator sim(false);
+	sim.addCallbacks(&spy);
+	sim.compileProgram(design.getCircuit());
+	sim.powerOn();
+	auto set = [&](hlim::Node_Pin *pin, const std::string &bits) { sim.simProcSetInputPin(pin, sim::convertToExtended(vh::bitsFromString(bits))); };
+	auto get = [&](hlim::Node_Pin *pin) { return vh::bitsToString(sim.getValueOfOutput(pin->getDriver(0))); };
+
+	std::vector<size_t> fillGuess(nF, 0); // harness-side estimate from the implementation's own flags (only steers the schedule)
+	bool push = false, pop = false; size_t pushSel = 0, popSel = 0;
+	std::string data = toBits(0, w);
+	uint64_t counter = 1;
+	enum AMode { A_RANDOM, A_FIXED_DIFFERENT, A_SAME, A_CHASE_FULL, A_CHASE_EMPTY, A_FILL_ONE_POP_OTHER, A_ROUND_ROBIN, A_NMODES };
+	AMode mode = A_RANDOM; size_t modeLeft = 0, fixA = 0, fixB = 0;
+	bool released = false;
+	for (size_t ev = 0; ev < nEvents; ev++) {
+		set(pPush, push ? "1" : "0"); set(pPushSel, toBits(pushSel, kf)); set(pData, data);
+		set(pPop, pop ? "1" : "0"); set(pPopSel, toBits(popSel, kf));
+		sim.reevaluate();
+		std::string full = get(oFull), empty = get(oEmpty), size = get(oSize), peek = get(oPeek);
+		bool rst = spy.pushRst;
+		spy.pushEdge = false;
+		size_t guard = 0;
+		while (!spy.pushEdge) {
+			sim.advanceEvent();
+			if (!spy.pushEdge) rst = spy.pushRst;
+			if (++guard > 1000) { o << "abort no-clock-edge\n"; break; }
+		}
+		o << "a " << (rst ? 1 : 0) << ' ' << (push ? 1 : 0) << ' ' << pushSel << ' ' << data << ' ' << (pop ? 1 : 0) << ' ' << popSel
+		  << " | " << full << ' ' << empty << ' ' << size << ' ' << peek << '\n';
+		if (!released) { released = !spy.pushRst; if (!released) continue; }
+		if (pop && empty == "0" && fillGuess[popSel] > 0) fillGuess[popSel]--;
+		if (push && full == "0") fillGuess[pushSel]++;
+		if (modeLeft == 0) {
+			mode = (AMode)rng.below(A_NMODES);
+			modeLeft = rng.range(3, 4 * N + 8);
+			fixA = rng.below(nF); fixB = (fixA + 1 + rng.below(nF - 1)) % nF; // fixB != fixA
+		} else modeLeft--;
+		auto argmax = [&]() { size_t b = 0; for (size_t i = 1; i < nF; i++) if (fillGuess[i] > fillGuess[b]) b = i; return b; };
+		auto argmin = [&]() { size_t b = 0; for (size_t i = 1; i < nF; i++) if (fillGuess[i] < fillGuess[b]) b = i; return b; };
+		switch (mode) {
+			case A_RANDOM: push = rng.chance(2, 3); pop = rng.chance(1, 2); pushSel = rng.below(nF); popSel = rng.below(nF); break;
+			case A_FIXED_DIFFERENT: push = rng.chance(3, 4); pop = rng.chance(1, 2); pushSel = fixA; popSel = fixB; break;
+			case A_SAME: push = rng.chance(2, 3); pop = rng.chance(2, 3); pushSel = popSel = fixA; break;
+			case A_CHASE_FULL: push = true; pop = rng.chance(1, 4); pushSel = rng.chance(3, 4) ? argmax() : rng.below(nF); popSel = rng.below(nF); break;
+			case A_CHASE_EMPTY: push = rng.chance(1, 4); pop = true; pushSel = rng.below(nF); popSel = rng.chance(3, 4) ? argmin() : rng.below(nF); break;
+			case A_FILL_ONE_POP_OTHER: push = true; pushSel = fixA; pop = rng.chance(1, 3); popSel = fixB; break; // fill A to capacity while the pop selector rests on B
+			case A_ROUND_ROBIN: push = rng.chance(3, 4); pop = rng.chance(3, 4); pushSel = (pushSel + 1) % nF; popSel = (popSel + nF - 1) % nF; break;
+			default: push = pop = false;
+		}
+		data = rng.chance(1, 16) ? toBits(rng.next(), w) : toBits(counter++, w);
+	}
+	o << "end\n";
+}
+
 int main(int argc, char **argv) {
 	uint64_t seed = vh::argU64(argc, argv, 1, 1);
 	uint64_t ncases = vh::argU64(argc, argv, 2, 10);
 	uint64_t nEvents = vh::argU64(argc, argv, 3, 200);
 	std::string modeArg = argc > 4 ? std::string(argv[4]) : std::string();
-	bool streamMode = modeArg == "stream", deepMode = modeArg == "deep", grayMode = modeArg == "gray";
+	bool streamMode = modeArg == "stream", deepMode = modeArg == "deep", grayMode = modeArg == "gray", arrayMode = modeArg == "array";
 	std::ios::sync_with_stdio(false);
 	// gatery may drop debug visualisations (*.dot) into the cwd when a design check fails: keep them out of the tree
 	{ std::error_code ec; std::filesystem::current_path(std::filesystem::temp_directory_path(), ec); }
@@ -437,6 +532,7 @@ int main(int argc, char **argv) {
 		try {
 			if (streamMode) runStreamCase(c, r, nEvents, os);
 			else if (grayMode) runGrayCase(c, r, nEvents, os);
+			else if (arrayMode) runArrayCase(c, r, nEvents, os);
 			else runCase(c, r, nEvents, os, deepMode);
 		} catch (const std::exception &e) {
 			std::string msg = e.what();
